@@ -17,7 +17,7 @@ use linfa_bayes::{
 use lvmc_core::{guarded, json, Value, Violation};
 use ndarray::{Array1, Array2};
 use serde::{Deserialize, Serialize};
-use std::collections::{BTreeMap, HashSet, VecDeque};
+use std::collections::{BTreeMap, HashMap};
 
 #[derive(Clone, Debug, Serialize, Deserialize)]
 pub struct NbCase {
@@ -411,6 +411,8 @@ struct St {
     eps_part: BTreeMap<usize, f64>,
     /// largest batch-local "largest feature variance" seen on the path
     max_batch_var: f64,
+    /// number of distinct histories (compositions of the first j rows) that lead to this state
+    mult: u64,
 }
 
 /// What the batch model of a prefix looks like (does not depend on the history): cached per prefix.
@@ -438,6 +440,10 @@ pub fn run_nb(case: &NbCase, out: &mut Out) {
     let cj = |hist: &[usize], extra: Value| -> Value {
         let mut c = case.clone();
         c.only_history = Some(hist.to_vec());
+        // rows after the end of the history play no role: keep the artefact minimal
+        let used: usize = hist.iter().sum();
+        c.x.truncate(used);
+        c.y.truncate(used);
         let mut v = serde_json::to_value(&c).unwrap();
         let o = v.as_object_mut().unwrap();
         o.insert("family".into(), json!("nb"));
@@ -447,14 +453,21 @@ pub fn run_nb(case: &NbCase, out: &mut Out) {
     let asserted = !gaussian || case.smoothing <= ASSERTED_SMOOTHING;
 
     let mut prefixes: Vec<Option<Prefix>> = (0..=n).map(|_| None).collect();
-    let mut seen: HashSet<Vec<u8>> = HashSet::new();
-    let mut q: VecDeque<St> = VecDeque::new();
-    q.push_back(St { j: 0, model: None, hist: vec![], eps_part: BTreeMap::new(), max_batch_var: 0.0 });
+    // states grouped by the number of rows consumed; a transition strictly increases that number,
+    // so processing the levels in ascending order sees every state after all its predecessors
+    // (needed to count how many compositions each merged state stands for)
+    let mut levels: Vec<Vec<St>> = (0..=n).map(|_| Vec::new()).collect();
+    let mut seen: HashMap<Vec<u8>, usize> = HashMap::new();
+    levels[0].push(St { j: 0, model: None, hist: vec![], eps_part: BTreeMap::new(), max_batch_var: 0.0, mult: 1 });
     out.states += 1;
+    let mut lost_paths = false;
+    let mut walked = 0u64;
 
-    while let Some(st) = q.pop_front() {
+    for level in 0..=n {
+        let here = std::mem::take(&mut levels[level]);
+        for st in here {
         if st.j == n {
-            out.traces += 1;
+            walked += st.mult;
             continue;
         }
         for s in 1..=(n - st.j) {
@@ -493,6 +506,7 @@ pub fn run_nb(case: &NbCase, out: &mut Out) {
                         format!("fit_with on batch {:?} / {:?} after history {:?} returned Err({})", bx, by, st.hist, e),
                         cj(&hist, json!({"op": "fit_with"})),
                     ));
+                    lost_paths = true;
                     continue;
                 }
                 Err(Fail::Panic(e)) => {
@@ -501,6 +515,7 @@ pub fn run_nb(case: &NbCase, out: &mut Out) {
                         format!("fit_with on batch {:?} / {:?} after history {:?} panicked: {}", bx, by, st.hist, e),
                         cj(&hist, json!({"op": "fit_with"})),
                     ));
+                    lost_paths = true;
                     continue;
                 }
             };
@@ -510,6 +525,7 @@ pub fn run_nb(case: &NbCase, out: &mut Out) {
                     "the serde image of the model does not have the expected fields".to_string(),
                     cj(&hist, json!({"op": "fit_with"})),
                 ));
+                lost_paths = true;
                 continue;
             };
             // ---- lock-step: own estimates from the rows consumed so far ----
@@ -560,18 +576,31 @@ pub fn run_nb(case: &NbCase, out: &mut Out) {
             }
             if !ok {
                 // a wrong statistic makes everything downstream meaningless: do not expand
+                lost_paths = true;
                 continue;
             }
             let key = canon(j2, &stats);
-            if !seen.insert(key) {
+            if let Some(&ix) = seen.get(&key) {
                 out.bump("nb_transitions_into_an_already_known_state", 1);
+                levels[j2][ix].mult += st.mult;
                 continue;
             }
+            seen.insert(key, levels[j2].len());
             out.states += 1;
             // ---- per state: predictions of the incremental model vs batch model vs reference ----
             check_state(case, gaussian, tag, asserted, pf, &model, &stats, &eps_part, &qs, &qarr, &hist, out, &cj);
-            q.push_back(St { j: j2, model: Some(model), hist, eps_part, max_batch_var });
+            levels[j2].push(St { j: j2, model: Some(model), hist, eps_part, max_batch_var, mult: st.mult });
         }
+        }
+    }
+    // every composition of the n rows must have been walked to its end (measured, not claimed)
+    out.traces += walked;
+    if case.only_history.is_none() && !lost_paths {
+        out.bump("nb_compositions_expected", 1u64 << (n - 1));
+        out.bump("nb_compositions_walked_to_the_end", walked);
+    }
+    if case.only_history.is_none() && lost_paths {
+        out.bump("nb_cases_with_histories_cut_short_by_a_violation", 1);
     }
 }
 
@@ -773,17 +802,42 @@ fn check_state(
         if pred[i] == *e {
             continue;
         }
+        let zero_var = gaussian && pf.tb.var.values().any(|v| v.iter().any(|x| *x == 0.0));
         if !asserted {
             // large-smoothing regime of the Gaussian model: measured, not asserted
             out.bump("gnb_smoothing_1e-3_clear_margin_flips_measured", 1);
             out.maxi("gnb_smoothing_1e-3_largest_margin_of_a_flip", *margin);
+            if !zero_var {
+                out.bump("gnb_smoothing_1e-3_clear_margin_flips_measured_all_class_variances_positive", 1);
+                out.maxi("gnb_smoothing_1e-3_largest_margin_of_a_flip_all_class_variances_positive", *margin);
+                let better = out.notes.get("gnb_smoothing_1e-3_flip_with_all_class_variances_positive").map_or(true, |(m, _)| *margin > *m);
+                if better {
+                    out.notes.insert(
+                        "gnb_smoothing_1e-3_flip_with_all_class_variances_positive",
+                        (
+                            *margin,
+                            json!({"x": case.x, "y": case.y, "var_smoothing": case.smoothing, "history": hist, "query": qs[i],
+                                   "incremental_predicts": pred[i], "single_fit_predicts": pf.batch_pred.as_ref().map(|b| b[i]), "reference_argmax": e, "reference_margin": margin}),
+                        ),
+                    );
+                }
+            }
             continue;
+        }
+        if gaussian {
+            if zero_var {
+                out.bump("gnb_default_smoothing_flips_with_a_zero_variance_class_feature", 1);
+            } else {
+                out.bump("gnb_default_smoothing_flips_with_all_class_variances_positive", 1);
+            }
         }
         if reported {
             continue;
         }
         reported = true;
-        // does the subject's batch-local epsilon bookkeeping explain the label?
+        // does the subject's batch-local epsilon bookkeeping explain the label? (own model of
+        // that bookkeeping: sigma = textbook variance + e_c; explained iff the observed label is
+        // the arg-max, or within the tie margin of the arg-max, of the posterior under it)
         let mut sig = format!("{}.fit_with.prediction_not_argmax_posterior", tag);
         if gaussian {
             let mut alt = pf.tb.stats.clone();
@@ -794,9 +848,14 @@ fn check_state(
                 }
             }
             if posterior_defined(true, &alt) {
-                let (e2, clear2, _) = expected(&posterior(true, &alt, &qs[i]));
-                if clear2 && e2 == pred[i] {
-                    sig = format!("{}.fit_with.prediction_flip_from_batch_local_epsilon", tag);
+                let post = posterior(true, &alt, &qs[i]);
+                let top = post.iter().map(|x| x.1).fold(f64::NEG_INFINITY, f64::max);
+                let scale = post.iter().map(|x| x.1.abs()).fold(0.0f64, f64::max);
+                let mine = post.iter().find(|x| x.0 == pred[i]).map(|x| x.1);
+                if let Some(m) = mine {
+                    if top - m <= MARGIN_ABS.max(MARGIN_REL * scale) {
+                        sig = format!("{}.fit_with.prediction_flip_from_batch_local_epsilon", tag);
+                    }
                 }
             }
         }
